@@ -16,6 +16,7 @@ PROPS = {
             "HqModel.C13.c13_submit_reject_no_effect",
             "HqModel.C13.c13_auto_ids",
             "HqModel.C13.c13_auto_id_single",
+            "HqModel.C13.c13_completed_once",
         ],
         "parts": [{
             "component": "job", "driver": "hqm-job",
